@@ -187,6 +187,8 @@ class Evaluator:
                 return self.env[key]
             if n.get("dk") in ("Function", "CXXMethod"):
                 return ("fn", n.get("qn") or key)      # a function designator (decays to a function pointer)
+            if (self.tinfo(n.get("ct")) or {}).get("k") == "array" and not getattr(self, "heap_mode", False):
+                return ("ptr", key, 0)                  # a local array: its cells are env[name[i]]
             raise Unknown(key)
         if k in ("MemberExpr", "ArraySubscriptExpr"):
             key = self.lkey(n)
@@ -551,6 +553,16 @@ class Evaluator:
                 if n["k"] == "DeclStmt":
                     for d in n.get("decls", []):
                         if d.get("init") is not None:
+                            i0_ = f.strip(d["init"])
+                            if i0_ is not None and i0_["k"] == "InitListExpr":
+                                ext_ = (self.tinfo(d.get("ct")) or {}).get("extent")
+                                els_ = i0_.get("c", [])
+                                for j_ in range(ext_ if isinstance(ext_, int) and ext_ < 4096 else len(els_)):
+                                    try:
+                                        self.env["%s[%d]" % (d["name"], j_)] = self.ev(els_[j_]) if j_ < len(els_) else 0
+                                    except Unknown:
+                                        self.env.pop("%s[%d]" % (d["name"], j_), None)
+                                continue
                             try:
                                 self.env[d["name"]] = self.ev(d["init"])
                             except Thrown:
@@ -583,6 +595,36 @@ class Evaluator:
             if blk.get("tempdtorbranch") and len(succ) == 2:
                 # both successors differ only in a temporary's destructor, which is not modelled
                 b = succ[1] if succ[1] is not None else succ[0]
+                continue
+            if blk.get("termk") == "SwitchStmt" and blk.get("cond") is not None:
+                sv = vals.get(blk["cond"])
+                if sv is None or isinstance(sv, Unknown):
+                    try:
+                        sv = self.ev(f.nodes[blk["cond"]])
+                    except Unknown as u:
+                        raise Unknown("switch on unknown %s: %s" % (render(f, f.nodes[blk["cond"]]), u))
+                target, default, nocase = None, None, None
+                for s_ in succ:
+                    if s_ is None:
+                        continue
+                    lab = f.blocks[s_]
+                    if lab.get("labelk") == "CaseStmt":
+                        ln_ = f.nodes[lab["label"]]
+                        cv_ = ln_.get("cv")
+                        if cv_ is None and ln_.get("lhs") is not None:
+                            try:
+                                cv_ = self.ev(f.node(ln_["lhs"]))
+                            except Unknown:
+                                cv_ = None
+                        if cv_ is not None and int(cv_) == sv:
+                            target = s_
+                    elif lab.get("labelk") == "DefaultStmt":
+                        default = s_
+                    else:
+                        nocase = s_
+                b = target if target is not None else (default if default is not None else nocase)
+                if b is None:
+                    raise Unknown("switch without a matching successor")
                 continue
             if blk.get("cond") is not None and len(succ) == 2:
                 c = blk["cond"]
